@@ -380,9 +380,14 @@ def gen_dev_case(rng: random.Random, w: int) -> dict:
     lw = w.bit_length() - 1
     top_words = 1 << min(w - lw, 60)
 
-    def addr():
+    def addr(write=False):
         r = rng.random()
         s = rng.choice(segs)
+        if write:
+            # the property speaks of device writes INSIDE segments (what a write outside every segment does to the
+            # program's view differs between the engines and is not specified): first / last / any in-segment word
+            a_ = s[0] + rng.choice([0, s[1] - 1, max(0, s[1] - 2), rng.randrange(min(s[1], 24)), rng.randrange(s[1])])
+            return a_ if a_ < top_words else s[0] + rng.randrange(min(s[1], 24))      # (inside the width's address space)
         if r < 0.55:
             return s[0] + rng.randrange(min(s[1], 24))
         if r < 0.7:
@@ -397,11 +402,16 @@ def gen_dev_case(rng: random.Random, w: int) -> dict:
         for _ in range(rng.randint(0, 3)):
             kind = rng.choice(["rw", "ww", "rw", "rb", "wb"] if w >= 16 else ["rw", "ww", "rw"])
             if kind in ("rb", "wb"):
-                a = (addr() & ~1) * w          # op-aligned bit address
+                wa_ = addr(kind == "wb") & ~1
+                if kind == "wb" and not any(s_[0] <= wa_ + 1 < s_[0] + s_[1] for s_ in segs):
+                    wa_ = segs[0][0] & ~1                 # the op's jump word must lie inside a segment
+                    if not any(s_[0] <= wa_ + 1 < s_[0] + s_[1] for s_ in segs):
+                        kind = "rb"
+                a = wa_ * w                    # op-aligned bit address
                 if (a >> lw) + 1 >= top_words:
                     a = 0
             else:
-                a = addr()
+                a = addr(kind == "ww")
             acc = {"op": kind, "a": nb(a, AW)}
             if kind == "ww":
                 acc["v"] = nb(rng.choice([0, 1, mask, rng.randrange(1 << w), 0xBB67AE8584CAA73B & mask, (case['data'].get(1, 0))]), w // 8)
@@ -533,6 +543,7 @@ def run(chk: Check, replay=None):
     so = str(engines.build_native())
     chk.assumptions += [
         "device word addresses are kept below 2^(w-log2 w) words + segments (addresses beyond the width's address space are not judged)",
+        "device WRITES go to in-segment words only (as in the property); device reads go anywhere (outside the segments they return 0)",
         "the screen's program memory is abstracted as one packed byte per op (MemBytes); addresses in commands are dw-aligned and below 2^16",
     ]
     pool = run_screen(chk, quick, rng, so)
